@@ -1,10 +1,11 @@
 use crate::{
     emulator::Emulator,
-    error::IoError,
+    error::{IoError, SnapshotLoadError},
     host::{DataRecorder, Host, LoadableAsset, SeekFrom, SeekableAsset},
     zx::{machine::ZXMachine, video::colors::ZXColor},
     Result,
 };
+use rustzx_z80::{Z80Bus, Z80};
 
 const SNA_HEADER_SIZE: usize = 27;
 const SNA_128K_SECONDARY_HEADER_SIZE: usize = 4;
@@ -35,8 +36,22 @@ where
         return Err(IoError::UnexpectedEof.into());
     }
 
+    // Snapshot can be loaded only to the machine of the same model
+    if is_128k != (emulator.settings.machine == ZXMachine::Sinclair128K) {
+        return Err(SnapshotLoadError::MachineNotSupported.into());
+    }
+
     let mut header = [0u8; SNA_HEADER_SIZE];
     asset.read_exact(&mut header)?;
+
+    let interrupt_mode = header[25] & SNA_INTERRUPT_MODE_MASK;
+    if interrupt_mode > 2 {
+        return Err(SnapshotLoadError::InvalidSNAFile.into());
+    }
+
+    // CPU state which is not stored in the snapshot (halt, pending prefix, etc.)
+    // should not be inherited from the previously running program
+    emulator.cpu = Z80::default();
 
     // i-reg
     emulator.cpu.regs.set_i(header[0]);
@@ -99,7 +114,7 @@ where
         .regs
         .set_sp(u16::from_le_bytes([header[23], header[24]]));
     // interrupt mode
-    emulator.cpu.set_im(header[25] & SNA_INTERRUPT_MODE_MASK);
+    emulator.cpu.set_im(interrupt_mode);
     // Border color
     emulator
         .controller
@@ -116,7 +131,7 @@ where
         let port_7ffd = tmp[2];
         let _trdos_paged = tmp[3];
         // This will alsto setup required memory map before banks restore
-        emulator.controller.write_7ffd(port_7ffd);
+        emulator.controller.load_7ffd(port_7ffd);
 
         // Go to the previous position
         asset.seek(SeekFrom::Start(SNA_HEADER_SIZE))?;
@@ -169,25 +184,50 @@ where
 struct ScopedSnapshotState<'a, H: Host> {
     pub emulator: &'a mut Emulator<H>,
     pub is_48k: bool,
+    // Original stack pointer and memory content which were replaced by PC in 48K mode
+    saved_stack: Option<(u16, [u8; 2])>,
 }
 
 impl<'a, H: Host> ScopedSnapshotState<'a, H> {
     fn enter(emulator: &'a mut Emulator<H>) -> Self {
         let is_48k = emulator.settings.machine == ZXMachine::Sinclair48K;
+        let mut saved_stack = None;
         if is_48k {
-            emulator.cpu.push_pc_to_stack(&mut emulator.controller);
+            // 48K SNA stores PC on the stack. Place it to the memory directly (without bus
+            // timings) and remember overwritten bytes to restore them later
+            let sp = emulator.cpu.regs.get_sp();
+            let [pcl, pch] = emulator.cpu.regs.get_pc().to_le_bytes();
+            let (addr_h, addr_l) = (sp.wrapping_sub(1), sp.wrapping_sub(2));
+            saved_stack = Some((
+                sp,
+                [
+                    emulator.controller.memory.read(addr_h),
+                    emulator.controller.memory.read(addr_l),
+                ],
+            ));
+            emulator.controller.write_internal(addr_h, pch);
+            emulator.controller.write_internal(addr_l, pcl);
+            emulator.cpu.regs.set_sp(addr_l);
         }
 
-        Self { emulator, is_48k }
+        Self {
+            emulator,
+            is_48k,
+            saved_stack,
+        }
     }
 }
 
 impl<'a, H: Host> Drop for ScopedSnapshotState<'a, H> {
     fn drop(&mut self) {
-        if self.is_48k {
+        if let Some((sp, [byte_h, byte_l])) = self.saved_stack {
             self.emulator
-                .cpu
-                .pop_pc_from_stack(&mut self.emulator.controller);
+                .controller
+                .write_internal(sp.wrapping_sub(1), byte_h);
+            self.emulator
+                .controller
+                .write_internal(sp.wrapping_sub(2), byte_l);
+            self.emulator.cpu.regs.set_sp(sp);
         }
     }
 }
@@ -198,7 +238,9 @@ where
     R: DataRecorder,
 {
     let state = ScopedSnapshotState::enter(emulator);
-    let ScopedSnapshotState { emulator, is_48k } = &state;
+    let ScopedSnapshotState {
+        emulator, is_48k, ..
+    } = &state;
 
     let mut header = [0u8; SNA_HEADER_SIZE];
     // interrupt register
